@@ -11,7 +11,7 @@ WORKLOADS = [
     ("c19_seq.py", 8, ["maskedref_created", "alias_created", "made_readonly", "write_on_readonly", "elemref_write_through", "released",
                        "inplace_masked", "inplace_on_readonly_masked", "inplace_on_readonly_direct", "length_mismatch"]),
     ("c19_nd.py", 8, ["2d_index_out_of_range", "2d_wrong_shape_source", "2d_malformed_index", "2d_malformed_index_array_source", "2d_mask",
-                      "matrix_row_out_of_range", "matrix_wrong_shape_source", "varray_item_out_of_range", "varray_mask", "varray_readonly_write_attempt"]),
+                      "matrix_row_out_of_range", "matrix_wrong_shape_source", "varray_item_out_of_range", "varray_mask", "varray_readonly_write_attempt", "varray_row_source_strided", "varray_row_source_masked"]),
     ("c19_life.py", 8, ["release_orders"]),
     ("c19_buffer.py", 6, ["exported", "readonly_writable_request", "import_matching", "import_mismatching", "import_bytes", "strings_distinct", "strided_export"]),
 ]
